@@ -96,3 +96,96 @@ Theorem C03_exec_pipeline : forall (q : query) (spec : list (nat * bool)) (table
                        (map (project (q_vis q)) (isort (spec_le spec) (exec_rows q table)))).
 Proof. intros q spec table H. unfold exec. rewrite H. apply post_pipeline. Qed.
 Print Assumptions C03_exec_pipeline.
+
+(* ---------------------------------------------------------------------------------------------------------------
+   Tie by translation (PYMINI.md): Gen/SrcExec.v is regenerated on every run from the SOURCE of
+   beanquery/query_execute.py (uniquify, nullitemgetter's inner functions, the ORDER BY .. LIMIT tail of
+   execute_select selected by structure).  Interpreting those terms equals, for ALL inputs, the Model/Order.v
+   functions the theorems above are about.  Library calls have the semantics of Model/PrimsExec.v (trusted). *)
+From Coq Require Import String.
+From Verif Require Import Model.PyMini Model.PrimsExec Gen.SrcExec Proofs.SrcExec.
+
+(* uniquify: the translated generator function yields Order.uniquify of the rows *)
+Theorem C03_source_uniquify : forall (call_ref : nat -> list pv -> pv) (prim : string -> list pv -> res pv),
+  prim "builtins.set"%string [] = Ok (PList []) ->
+  forall rows : list row,
+  call_fun call_ref prim exec_uniquify [PList (map row_pv rows)] = Ok (PList (map row_pv (uniquify rows))).
+Proof. exact uniquify_src. Qed.
+Print Assumptions C03_source_uniquify.
+
+(* nullitemgetter(i) and nullitemgetter(i, j, ..): the key of a row is its cells, None replaced by the NULL sentinel *)
+Theorem C03_source_nullitemgetter_single : forall (call_ref : nat -> list pv -> pv) (r : row) (i : nat),
+  (i < List.length r)%nat ->
+  call_fun call_ref prims_base exec_nig_single [idx_pv i; rowl_pv r] = Ok (key_pv (cell i r)).
+Proof. exact nig_single_src. Qed.
+Print Assumptions C03_source_nullitemgetter_single.
+
+Theorem C03_source_nullitemgetter_multi : forall (call_ref : nat -> list pv -> pv) (r : row) (idxs : list nat),
+  (forall i, In i idxs -> (i < List.length r)%nat) ->
+  call_fun call_ref prims_base exec_nig_multi [PTuple (map idx_pv idxs); rowl_pv r] =
+  Ok (PTuple (map (fun i => key_pv (cell i r)) idxs)).
+Proof. exact nig_multi_src. Qed.
+Print Assumptions C03_source_nullitemgetter_multi.
+
+(* rows.sort(key=nullitemgetter( *idxs ), reverse=d), the key function being the translated source, is sort_pass *)
+Theorem C03_source_sort_pass : forall (call_ref : nat -> list pv -> pv) (idxs : list nat) (d : bool) (rows : list row),
+  idxs <> [] -> (forall r, In r rows -> forall i, In i idxs -> (i < List.length r)%nat) ->
+  sort_prim (apply_key call_ref exec_nig_single exec_nig_multi 1) (map rowl_pv rows)
+            (partial_clo 1 (map idx_pv idxs)) d =
+  Ok (PTuple [PList (map rowl_pv (sort_pass idxs d rows)); PNone]).
+Proof. exact sort_prim_src. Qed.
+Print Assumptions C03_source_sort_pass.
+
+(* the whole tail `if order_spec is not None: .. return result_types, list(rows)`: Order.post, for every ORDER BY list
+   (or none), result_indexes, DISTINCT flag, LIMIT and rows whose width covers the indexes.  Opaque callable 1 is
+   nullitemgetter (calling it yields a closure value), 2 is uniquify (linked to its own translation). *)
+Theorem C03_source_order_tail : forall (call_ref : nat -> list pv -> pv),
+  (forall args, call_ref 1%nat args = partial_clo 1 args) ->
+  (forall l, call_ref 2%nat [PList l] =
+             res_pv (call_fun call_ref (prims_exec call_ref exec_nig_single exec_nig_multi 1) exec_uniquify [PList l])) ->
+  forall (spec : option (list (nat * bool))) (vis : list nat) (distinct : bool) (lim : option Z)
+         (rows : list row) (tbl rt : pv),
+  (forall r, In r rows -> forall i,
+     In i vis \/ match spec with Some sp => In i (map fst sp) | None => False end -> (i < List.length r)%nat) ->
+  (forall n, lim = Some n -> 0 <= n) ->
+  call_fun call_ref (prims_exec call_ref exec_nig_single exec_nig_multi 1) exec_order_tail
+    [spec_pv spec; PList (map rowl_pv rows); PList (map idx_pv vis); query_obj tbl (PBool distinct) (lim_pv lim); rt] =
+  Ok (PTuple [rt; PList (map row_pv (post spec vis distinct (clip_limit lim) rows))]).
+Proof. exact order_tail_src. Qed.
+Print Assumptions C03_source_order_tail.
+
+(* ... hence what the SOURCE computes is one stable lexicographic sort, projection, DISTINCT, LIMIT *)
+Theorem C03_source_order_tail_lex : forall (call_ref : nat -> list pv -> pv),
+  (forall args, call_ref 1%nat args = partial_clo 1 args) ->
+  (forall l, call_ref 2%nat [PList l] =
+             res_pv (call_fun call_ref (prims_exec call_ref exec_nig_single exec_nig_multi 1) exec_uniquify [PList l])) ->
+  forall (sp : list (nat * bool)) (vis : list nat) (distinct : bool) (lim : option Z) (rows : list row) (tbl rt : pv),
+  (forall r, In r rows -> forall i, In i vis \/ In i (map fst sp) -> (i < List.length r)%nat) ->
+  (forall n, lim = Some n -> 0 <= n) ->
+  call_fun call_ref (prims_exec call_ref exec_nig_single exec_nig_multi 1) exec_order_tail
+    [spec_pv (Some sp); PList (map rowl_pv rows); PList (map idx_pv vis); query_obj tbl (PBool distinct) (lim_pv lim); rt] =
+  Ok (PTuple [rt; PList (map row_pv
+        (limit (clip_limit lim) ((if distinct then uniquify else fun l => l)
+                                   (map (project vis) (isort (spec_le sp) rows)))))]).
+Proof. exact order_tail_lex_src. Qed.
+Print Assumptions C03_source_order_tail_lex.
+
+Theorem C03_source_limit_clip : forall lim, (forall n, lim = Some n -> n <= sys_maxsize) -> clip_limit lim = lim.
+Proof. exact clip_limit_small. Qed.
+Print Assumptions C03_source_limit_clip.
+
+(* the linking hypotheses are satisfiable ... *)
+Example C03_source_linking_satisfiable :
+  (forall args, demo_ref 1%nat args = partial_clo 1 args) /\
+  (forall l, demo_ref 2%nat [PList l] =
+             res_pv (call_fun demo_ref (prims_exec demo_ref exec_nig_single exec_nig_multi 1) exec_uniquify [PList l])).
+Proof. exact demo_ref_linked. Qed.
+
+(* ... and the translated tail really runs: the data of C03_example, executed by the interpreter on the generated term *)
+Example C03_source_example :
+  call_fun demo_ref (prims_exec demo_ref exec_nig_single exec_nig_multi 1) exec_order_tail
+    [spec_pv (Some [(1%nat, true); (0%nat, false)]);
+     PList (map rowl_pv [[VInt 3; VNull]; [VInt 1; VInt 5]; [VInt 2; VInt 5]; [VInt 1; VInt 5]; [VInt 0; VNull]]);
+     PList [idx_pv 0]; query_obj PNone (PBool true) (PInt 2); PNone]
+  = Ok (PTuple [PNone; PList [row_pv [VInt 1]; row_pv [VInt 2]]]).
+Proof. vm_compute. reflexivity. Qed.
